@@ -77,7 +77,7 @@ def exprToks (c ap : Bool) (q : Nat) (ws : Bool) : Node → List Tok
     else
       exprToksO c ap (Parser.precOf t.type) ws l ++ tk t (!c) ::
         exprToks c ap (if sameAssociativeOperator t r then Parser.precOf t.type else Parser.precOf t.type + 1) (!c) r
-  | .infix _ _ none => []
+  | .infix t l none => exprToksO c ap (Parser.precOf t.type) ws l ++ [tk t false]   -- the open-ended `n:` (never in parentheses)
   | .call _ f args =>
     exprToksO c ap prioCALL ws f ++ lparen false :: listToks c ap prioLOWEST false args ++ [rparen]
   | .array _ es => sym .LBRACKET [91] ws :: listToks c ap q false es ++ [rbracket]
@@ -94,9 +94,17 @@ def exprToks (c ap : Bool) (q : Nat) (ws : Bool) : Node → List Tok
     (if t.type == .LBRACKET then [rbracket] else []) ++
     (if ap || decide (Parser.precOf t.type < q) then [rparen] else [])
   | .func t name params body _ isLambda =>
-    if isLambda then [] else
+    if isLambda then
+      (if decide (prioLAMBDA < q) then [lparen ws] else []) ++
+      (if params.length == 1 then listToks c ap q false params
+       else lparen (!decide (prioLAMBDA < q) && ws) :: listToks c ap q false params ++ [rparen]) ++
+      sym .LAMBDA [61, 62] (!c) :: blockToks c ap body ++
+      (if decide (prioLAMBDA < q) then [rparen] else [])
+    else
     tk t ws :: (match name with | some nm => [tk nm true] | none => []) ++
       lparen false :: listToks c ap q false params ++ rparen :: blockToks c ap body
+  | .macroLit t params body => tk t ws :: lparen false :: listToks c ap q false params ++ rparen :: blockToks c ap body
+  | .mapLit _ kvs => sym .LBRACE [123] ws :: pairsToks c ap false kvs ++ [rbrace]
   | .forE _ cond body => sym .FOR [102, 111, 114] ws :: exprToksO c ap q true cond ++ blockToks c ap body
   | .ifE _ cond cons alt =>
     sym .IF [105, 102] ws :: exprToksO c ap q true cond ++ blockToks c ap cons ++ altToks c ap q alt
@@ -109,6 +117,12 @@ def listToks (c ap : Bool) (q : Nat) (notFirst : Bool) : List (Option Node) → 
   | [] => []
   | x :: xs =>
     (if notFirst then [comma] else []) ++ exprToksO c ap q (notFirst && !c) x ++ listToks c ap q true xs
+/-- MapLiteral.PrettyPrint's loop: key and value are printed as the operands of `:` -/
+def pairsToks (c ap : Bool) (notFirst : Bool) : List (Option Node) → List Tok
+  | k :: v :: rest =>
+    (if notFirst then [comma] else []) ++ exprToksO c ap (Parser.precOf .COLON) (notFirst && !c) k ++
+      sym .COLON [58] false :: exprToksO c ap (Parser.precOf .COLON + 1) false v ++ pairsToks c ap true rest
+  | _ => []
 /-- `(*Statements).PrettyPrint` inside braces -/
 def blockToks (c ap : Bool) : Option (List (Option Node)) → List Tok
   | none => []
@@ -159,9 +173,17 @@ def lastDotDot (d : Bool) : List (Option Node) → Bool
 def paramsOK (variadic : Bool) (params : List (Option Node)) : Bool :=
   params.all isParam && variadic == lastDotDot false params
 
+/-- the parameters of a lambda, as `okParamList` accepts them: identifiers, the last one may be `..` (exactly then the
+lambda is variadic) -/
+def lambdaParamsOK (variadic : Bool) (params : List (Option Node)) : Bool :=
+  params.all isParam &&
+    (match Parser.okParamList params with
+     | some (t, true) => t.isSome == variadic
+     | _ => false)
+
 mutual
 def fragN (c ap : Bool) : Node → Bool
-  | .ident t => t.type == .IDENT
+  | .ident t => t.type == .IDENT || t.type == .DOTDOT
   | .intLit t => t.type == .INT
   | .floatLit t => t.type == .INT || t.type == .FLOAT
   | .strLit t => t.type == .STRING
@@ -177,19 +199,34 @@ def fragN (c ap : Bool) : Node → Bool
   | .call t f args => t == ⟨.LPAREN, [40]⟩ && fragO c ap f && fragL c ap args
   | .array t es => t == ⟨.LBRACKET, [91]⟩ && fragL c ap es
   | .builtin t ps => builtinOp t.type && fragL c ap ps
-  | .index t l i => (t.type == .LBRACKET || t.type == .DOT) && fragO c ap l && fragO c ap i
+  | .index t l i =>
+    -- `a.(..)` is printed `a...`, which the lexer reads `a` `..` `.` (recorded class "dotdot-after-dot")
+    fragO c ap l &&
+      (if t.type == .LBRACKET then fragIdx c ap i else t.type == .DOT && !isDotDot i && fragO c ap i)
   | .func t name params body variadic isLambda =>
-    !isLambda && t.type == .FUNC && (match name with | some nm => nm.type == .IDENT | none => true) &&
+    if isLambda then t == ⟨.LAMBDA, [61, 62]⟩ && name.isNone && lambdaParamsOK variadic params && fragB c ap body
+    else t.type == .FUNC && (match name with | some nm => nm.type == .IDENT | none => true) &&
       paramsOK variadic params && fragB c ap body
+  | .macroLit t params body => t.type == .MACRO && params.all isParam && fragB c ap body
+  | .mapLit t kvs => t == ⟨.LBRACE, [123]⟩ && fragPairs c ap kvs
   | .forE t cond body => t == ⟨.FOR, [102, 111, 114]⟩ && fragO c ap cond && fragB c ap body
   | .ifE t cond cons alt => t == ⟨.IF, [105, 102]⟩ && fragO c ap cond && fragB c ap cons && fragAlt c ap alt
   | _ => false
 def fragO (c ap : Bool) : Option Node → Bool
   | none => false
   | some n => fragN c ap n
+/-- the index of `a[…]`: an expression, or the open-ended `n:` of `a[n:]` -/
+def fragIdx (c ap : Bool) : Option Node → Bool
+  | some (.infix tc lc none) => tc.type == .COLON && fragO c ap lc
+  | some n => fragN c ap n
+  | none => false
 def fragL (c ap : Bool) : List (Option Node) → Bool
   | [] => true
   | x :: xs => fragO c ap x && fragL c ap xs
+def fragPairs (c ap : Bool) : List (Option Node) → Bool
+  | [] => true
+  | k :: v :: rest => fragO c ap k && fragO c ap v && fragPairs c ap rest
+  | [_] => false
 def fragB (c ap : Bool) : Option (List (Option Node)) → Bool
   | none => false
   | some l => fragS c ap true true l
